@@ -284,6 +284,16 @@ def gen_list(ctx, nper):
     for v in (0.0, -0.0, 5e-324, -5e-324, math.inf, -math.inf, 1.7976931348623157e308, 1.0):
         for n in (1, 3):
             cases.append(mk_list_case("fill", [n], [v], [[1.5] * (n + 1)]))
+    # directed: the norms at both ends of the range (every component subnormal / near the largest finite number, with zeros
+    # mixed in) - "norms do not overflow or underflow when the true result is representable"
+    for u in (5e-324, 2.0 ** -1060, 2.0 ** -1030, 2.2250738585072014e-308, 2.0 ** 1000, 1.7976931348623157e308 / 8):
+        for vec in ([3 * u, -4 * u], [3 * u, -4 * u, 0.0], [0.0, u], [u], [-2 * u, 0.0, u, 2 * u, 4 * u], [-0.0, 12 * u, 5 * u, 0.0]):
+            cases.append(mk_list_case("norm", [len(vec)], [], [list(vec)]))
+            for c in (1, 2):
+                cells = []
+                for v in vec:
+                    cells += [v] + [1.0] * (c - 1)
+                cases.append(mk_list_case("norm_", [len(vec), c], [], [cells]))
     for k in range(nper):
         n = r.choice([0, 1, 1, 2, 3, 4, 5, 7, 8, 12])
         wild = (k % 4 == 0)
